@@ -371,10 +371,15 @@ def run_case(case, rec):
         # inverse: XLA may rewrite x/c as x*(1/c) (1 ulp), which an ill-conditioned inverse stage amplifies without
         # bound.  Judge jit == eager where the eager inverse is well conditioned: a 4-ulp change of its input moves it
         # by less than 1e-9 relative.
-        ypert = y * (1.0 + 8 * 2.0**-52) + 1e-300
-        xb2 = np.asarray(tf.inverse(jnp.asarray(ypert)), dtype=np.float64)
+        # the perturbation is relative to the LARGEST operand an inverse stage combines the value with (a shift of 1800 makes the
+        # intermediate's ulp 2e-13 whatever the size of y: a perturbation relative to |y| alone vanished in that rounding and
+        # declared an ill-conditioned inverse well conditioned - false alarm in the thorough tier, seed 1), in both directions
+        dy = 8 * 2.0**-52 * np.maximum(np.abs(y), max(mags + [0.0])) + 1e-300
         with np.errstate(all="ignore"):
-            well = np.isfinite(xb) & np.isfinite(xb2) & (np.abs(xb2 - xb) <= 1e-9 * (1 + np.abs(xb)))
+            well = np.isfinite(xb)
+            for ypert in (y + dy, y - dy):
+                xb2 = np.asarray(tf.inverse(jnp.asarray(ypert)), dtype=np.float64)
+                well = well & np.isfinite(xb2) & (np.abs(xb2 - xb) <= 1e-9 * (1 + np.abs(xb)))
         inv_ok = bool(np.all(np.isfinite(xj[well])) and np.allclose(xj[well], xb[well], rtol=1e-7, atol=1e-7))
         rec.check("jit_equiv", close(yj, y) and inv_ok, transform=spec["t"], spec=spec,
                   max_dev_forward=float(np.nanmax(np.abs(yj - y))) if np.isfinite(yj - y).any() else None)
